@@ -375,7 +375,8 @@ Qed.
 Lemma iteration_J e stmts c s s' : iteration e stmts c s = Ok s' -> J s -> J s' /\ mono s s'.
 Proof.
   unfold iteration. intros H HJ. dbind H as [s1 r].
-  destruct (slots_filled s1); [|discriminate]. injection H as <-.
+  destruct (slots_filled s1); [|discriminate].
+  destruct (stale_slot 4 s1 (survivors s1)); [discriminate|]. injection H as <-.
   destruct (run_J _ _ _ _ _ _ E HJ) as [[(B1 & B2 & B3) R1] M1]. split; [|exact M1].
   unfold J, Bd, refs_bounded. split; [splits|]; auto.
   intros n sl i Hin Ha. cbn [slots reset_slots] in Hin. unfold fresh_slots in Hin.
